@@ -4,6 +4,7 @@ import (
 	"fmt"
 	"os"
 	"testing"
+	"testing/synctest"
 	"time"
 )
 
@@ -20,4 +21,25 @@ func TestVerifBench(t *testing.T) {
 		}
 		fmt.Printf("%s: %.2f ms per root run\n", s.Name, float64(time.Since(t0).Microseconds())/1000/float64(n))
 	}
+}
+
+func TestVerifCtlDump(t *testing.T) {
+	if os.Getenv("VERIF_CTLDUMP") == "" {
+		t.Skip()
+	}
+	synctest.Test(t, func(t *testing.T) {
+		w := newWorld(worldCfg{Geom: "gshort", Peers: []peerCfg{{Fast: true, Ext: true, DontHave: 7}}, Have: []int{0, 2}, AutoDrain: true})
+		w.settle()
+		fmt.Println("repoRoot", repoRoot)
+		for _, s := range ctlSigs() {
+			fmt.Println("SIG", s)
+		}
+		for _, tr := range []string{"interested:0", "unchokepeer:0", "stall:0", "flood:0:251", "adv:2", "notinterested:0"} {
+			w.apply(tr)
+		}
+		for _, s := range ctlSigs() {
+			fmt.Println("SIG2", s)
+		}
+		w.dispose()
+	})
 }
